@@ -335,6 +335,10 @@ func checkC18All(c C18Case) Outcome {
 	}
 	rb.WriteString("SecRule ARGS \"@rx old-932101\" \\\n    \"id:932101,\\\n    t:none\"\n")
 	tree["rules/REQUEST-932-X.conf"] = rb.String()
+	// files named like rule files in sub-directories of the assembly directory are not the rule's assembly files
+	tree["regex-assembly/archive/932100.ra"] = "archived_copy\n"
+	tree["regex-assembly/archive/deeper/932100-chain1.ra"] = "archived_chain_copy\n"
+	tree["regex-assembly/include/932101.ra"] = "word_list_named_like_a_rule\n"
 	if err := tree.Write(root); err != nil {
 		panic(err)
 	}
@@ -466,16 +470,21 @@ func checkC18Root(c C18Case) Outcome {
 			}
 		}
 	}
+	// with an absolute -d the working directory is irrelevant: it is a CRS root of its own with other content
+	cwdRoot := sb.Path("cwdroot")
+	if err := (cli.Tree{"regex-assembly/932100.ra": "from_the_working_directory\n"}).Write(cwdRoot); err != nil {
+		panic(err)
+	}
 	var r cli.Result
 	cwdExists := true
 	switch c.Via {
 	case "d-abs":
-		r = cli.Run(cli.Opt{Dir: sb.Root, Timeout: 30 * time.Second}, "-d", sb.Path(start), "regex", "generate", "932100")
+		r = cli.Run(cli.Opt{Dir: cwdRoot, Timeout: 30 * time.Second}, "-d", sb.Path(start), "regex", "generate", "932100")
 	case "d-abs-slash":
 		// the same directory spelled with a trailing slash, or with a doubled one inside
-		r = cli.Run(cli.Opt{Dir: sb.Root, Timeout: 30 * time.Second}, "-d", sb.Path(start)+"/", "regex", "generate", "932100")
+		r = cli.Run(cli.Opt{Dir: cwdRoot, Timeout: 30 * time.Second}, "-d", sb.Path(start)+"/", "regex", "generate", "932100")
 	case "d-abs-unclean":
-		r = cli.Run(cli.Opt{Dir: sb.Root, Timeout: 30 * time.Second}, "-d", sb.Root+"//./"+start+"/.", "regex", "generate", "932100")
+		r = cli.Run(cli.Opt{Dir: cwdRoot, Timeout: 30 * time.Second}, "-d", sb.Root+"//./"+start+"/.", "regex", "generate", "932100")
 	case "d-rel-slash":
 		r = cli.Run(cli.Opt{Dir: sb.Root, Timeout: 30 * time.Second}, "-d", start+"/", "regex", "generate", "932100")
 	case "d-rel":
